@@ -95,22 +95,24 @@ type sub struct {
 }
 
 type drvLine struct {
-	Pkg        string `json:"pkg"`
-	P          string `json:"p"`
-	M          string `json:"m"`
-	Serve      sub    `json:"serve"`
-	Pfx        sub    `json:"pfx"`
-	NoPfx      sub    `json:"nopfx"`
-	Esc        sub    `json:"esc"`
-	EscU       sub    `json:"escU"`
-	Bad        sub    `json:"bad"`
-	Find       sub    `json:"find"`
-	FindEsc    sub    `json:"findesc"`
-	FindPfx    sub    `json:"findpfx"`
-	EscR       sub    `json:"escR"`
-	FindEscR   sub    `json:"findescR"`
-	PfxEsc     sub    `json:"pfxesc"`
-	FindPfxEsc sub    `json:"findpfxesc"`
+	Pkg         string `json:"pkg"`
+	P           string `json:"p"`
+	M           string `json:"m"`
+	Serve       sub    `json:"serve"`
+	Pfx         sub    `json:"pfx"`
+	NoPfx       sub    `json:"nopfx"`
+	Esc         sub    `json:"esc"`
+	EscU        sub    `json:"escU"`
+	Bad         sub    `json:"bad"`
+	Find        sub    `json:"find"`
+	FindEsc     sub    `json:"findesc"`
+	FindPfx     sub    `json:"findpfx"`
+	EscR        sub    `json:"escR"`
+	FindEscR    sub    `json:"findescR"`
+	PfxEsc      sub    `json:"pfxesc"`
+	FindPfxEsc  sub    `json:"findpfxesc"`
+	PfxEscR     sub    `json:"pfxescR"`
+	FindPfxEscR sub    `json:"findpfxescR"`
 }
 
 type tsub struct {
@@ -466,7 +468,8 @@ func serveSets(r *core.Run, known string, sets []routeSet, paths []string) error
 			"esc": project(d.Esc, in.rs, &d.FindEsc), "escU": project(d.EscU, in.rs, &d.Find), "bad": project(d.Bad, in.rs, &d.Find),
 			"escR": project(d.EscR, in.rs, &d.FindEscR), "findescR": project(d.FindEscR, in.rs, nil),
 			"find": project(d.Find, in.rs, nil), "findesc": project(d.FindEsc, in.rs, nil), "findpfx": project(d.FindPfx, in.rs, nil),
-			"pfxesc": project(d.PfxEsc, in.rs, &d.FindPfxEsc), "findpfxesc": project(d.FindPfxEsc, in.rs, nil)}
+			"pfxesc": project(d.PfxEsc, in.rs, &d.FindPfxEsc), "findpfxesc": project(d.FindPfxEsc, in.rs, nil),
+			"pfxescR": project(d.PfxEscR, in.rs, &d.FindPfxEscR), "findpfxescR": project(d.FindPfxEscR, in.rs, nil)}
 		b, _ := json.Marshal(o)
 		groups[d.Pkg] = append(groups[d.Pkg], b)
 		lineInfo[d.Pkg] = append(lineInfo[d.Pkg], d)
@@ -529,7 +532,7 @@ func serveSets(r *core.Run, known string, sets []routeSet, paths []string) error
 				pk, li := t.pk[v.Index], t.idx[v.Index]
 				d := lineInfo[pk][li]
 				in := byName[pk]
-				what := fmt.Sprintf("routes %s: %s %s -> serve=%+v find=%+v prefixed=%+v escaped=%+v", describeSet(in.rs), d.M, d.P, d.Serve, d.Find, d.Pfx, d.Esc)
+				what := fmt.Sprintf("routes %s: %s %s -> serve=%+v find=%+v prefixed=%+v escaped=%+v prefix-with-needless-escape-and-%%2F=%+v", describeSet(in.rs), d.M, d.P, d.Serve, d.Find, d.Pfx, d.Esc, d.PfxEscR)
 				switch {
 				case v.Kind == "drift":
 					r.Drift(what)
